@@ -133,7 +133,7 @@ def gen_coll(rng, model):
 
 
 def gen_template(rng, model, allow_nav=True, allow_coll=True, want_nav=False, annotated=False,
-                 allow_all=True, allow_fn=True):
+                 allow_all=True, allow_fn=True, allow_coll2=False):
     """A top-level filter for ``model``."""
     parts = []
     if annotated and rng.random() < 0.5:
@@ -147,6 +147,10 @@ def gen_template(rng, model, allow_nav=True, allow_coll=True, want_nav=False, an
                 nav2 = gen_nav(rng, model)
                 if nav2:
                     parts.append(nav2)
+    if allow_coll2 and model == "Author" and rng.random() < 0.35:
+        # lambda whose owner is a two-step to-many path: posts/comments/any(c: ...)
+        parts.append({"k": "coll2", "rels": ["posts", "comments"], "q": "any",
+                      "a": gen_scalar(rng, "Comment", 1)})
     if allow_coll and rng.random() < 0.25:
         c = gen_coll(rng, model)
         if c and c["q"] == "all" and not allow_all:
@@ -200,6 +204,8 @@ def render(t, prefix=""):
         return "(%s) %s (%s)" % (render(t["a"], prefix), k, render(t["b"], prefix))
     if k == "nav":
         return "%s%s/%s %s %s" % (prefix, "/".join(t["path"]), t["f"], t["op"], _lit(t["v"]))
+    if k == "coll2":
+        return "%s%s/any(c: %s)" % (prefix, "/".join(t["rels"]), render(t["a"], "c/"))
     if k == "coll":
         if t["q"] == "any0":
             return "%s%s/any()" % (prefix, t["rel"])
@@ -284,6 +290,14 @@ def evaluate(t, row, db, model):
                 return False
             m, r = tgt, nxt[0]
         return OPS[t["op"]](r[t["f"]], t["v"])
+    if k == "coll2":
+        m, members = model, [row]
+        for rel in t["rels"]:
+            tgt, back = TO_MANY[m][rel]
+            ids = {x["id"] for x in members}
+            members = [x for x in db[tgt] if x[back] in ids]
+            m = tgt
+        return any(evaluate(t["a"], x, db, m) for x in members)
     if k == "coll":
         tgt, back = TO_MANY[model][t["rel"]]
         members = [x for x in db[tgt] if x[back] == row["id"]]
@@ -352,6 +366,8 @@ def shape_of(t):
         if k == "str":
             lits.append(x["s"])
             return (k, x["fn"], x["f"])
+        if k == "coll2":
+            return (k, tuple(x["rels"]), x["q"], walk(x["a"]))
         if k == "coll":
             return (k, x["rel"], x["q"], walk(x["a"]) if "a" in x else None)
         return (k,) + tuple(walk(x[c]) for c in ("a", "b") if isinstance(x.get(c), dict))
